@@ -44,7 +44,9 @@ CHECKS = {
     'C04': ('exploration',
             'runtime oracle on the real gate function: exhaustive input '
             'enumeration through handle_comments + check_approvals on a stub '
-            'job, compared with a predicate written from the statement',
+            'job, compared with a predicate written from the statement; '
+            'sampled cells replayed on real repositories (system-level '
+            'companion)',
             'Every cell of the quantified input space (approval settings x 5 '
             'users x 5 review states x 2^5 options x bypass sources) is '
             'executed through the real functions and compared with an '
@@ -57,7 +59,9 @@ CHECKS = {
     'C05': ('exploration',
             'real BranchCascade + QueueCollection executed on an in-memory '
             'git (FakeGit) over enumerated queue graphs and status '
-            'assignments, compared with a longest-green-prefix oracle',
+            'assignments, compared with a longest-green-prefix oracle; plus '
+            'a monitor of every queue evaluation of generated histories on '
+            'real repositories against the same oracle',
             'Exhaustive slices of (layout, queue of <= 4 PRs, destination '
             'choice, status assignment) run through the real selection code; '
             'sub-spaces completed are listed in the evidence.',
@@ -79,7 +83,8 @@ CHECKS = {
             'real handle_comments + Reactor on stub jobs over a structured '
             'comment grammar (singles, all pairs, all triples of nested '
             'alphabets); necessary-condition, first-offence and metamorphic '
-            'oracles',
+            'oracles; system-level monitor of the options listed in robot '
+            'messages on a long-lived instance serving several authors',
             'Comments are generated from a structured form so the oracle '
             'never re-parses text; P1/P2 necessary conditions, P3 blocking '
             'class of the first offending comment, P4 invariance under '
@@ -116,7 +121,10 @@ CHECKS = {
     'C11': ('exploration',
             'real jira_checks on stub jobs with a fake issue store over '
             'enumerated names x issues x fixVersion subsets x cascades x '
-            'settings x bypass sources, against an ordered-checks oracle',
+            'settings x bypass sources, against an ordered-checks oracle; '
+            'system-level companion with a fake Jira store on real '
+            'repositories (refusal classes, no integration data, later '
+            'events)',
             'About 7e5 (quick) / 5e6 (thorough) cells through the real gate; '
             'expected versions written by hand from the C09 statement.',
             'JiraIssue replaced in the harness process; real BranchCascade '
